@@ -24,7 +24,8 @@ POPULATIONS = ["none", "sleepers", "blocked", "submitter", "shielded", "stubborn
                "cross-calls", "adopting:trio", "adopting:asyncio", "adopting:threading",
                # the adopter is a coroutine payload itself (adopted flavour @ adopter)
                "adopting:trio@asyncio", "adopting:asyncio@trio", "adopting:threading@asyncio",
-               "adopting:asyncio@asyncio", "adopting:trio@trio"]
+               "adopting:asyncio@asyncio", "adopting:trio@trio",
+               "spinning-adopter:asyncio", "spinning-adopter:trio"]
 ACCEPT_DELAY = 1.0
 
 
@@ -129,6 +130,14 @@ class Scenario:
             kit.submit({"id": tag + "-trio", "flavour": "trio", "steps": [
                 ("repeat-execute", {"id": tag + "-x", "flavour": "asyncio",
                                     "steps": [("sleep", 0.05)]}, 0.05)]})
+        if population.startswith("spinning-adopter:"):
+            # a coroutine payload that hands follow-up work to adopt() at every turn of its
+            # loop, on the loop's own thread, right through the shutdown
+            flavour = population.split(":")[1]
+            kit.submit({"id": tag + "-spinner", "flavour": flavour, "steps": [
+                ("sleep", max(stop_at - 0.1, 0.0)),
+                ("spin-adopt", {"id": tag + "-follow", "flavour": flavour, "steps": []}, 60),
+                ("forever", 0.4)]})
         if population.startswith("adopting:"):
             # a thread payload keeps adopting payloads of one flavour through the whole
             # shutdown, which a trio payload with shielded cleanup stretches
@@ -427,7 +436,7 @@ def scenario_params(tier):
             ENDS, ["main", "second"], POPULATIONS, stops, [False, True]):
         if end == "sigint" and thread == "second":
             continue
-        if population.startswith("adopting:") and (
+        if population.startswith(("adopting:", "spinning-adopter:")) and (
                 thread != "main" or concurrent or stop_at != 0.5):
             continue
         if tier == "quick" and concurrent and stop_at == 0.0:
@@ -474,6 +483,8 @@ def run(ctx):
         "module": "checks.c12", "params": params,
         "bound": bound if in_core(params) else 1,
         "opts": {"time_horizon": 60.0, "drain": 2.0, "max_points": 12000,
+                 "spin_time": 0.05 if any("spinning" in phase["population"]
+                                          for phase in params.get("phases", ())) else 0.0,
                  "free_switch_cost": 1,
                      "time_jump_cost": None if ctx.quick else 1},
         "budget": 3000 if ctx.quick else 30000,
